@@ -720,6 +720,12 @@ def corpus():
         ['deep', 'list', 300, N('int')], ['deep', 'list', 256, N('int')], ['deep', 'Union2', 100, N('int')], ['deep', 'list', 1500, N('int')],
         ['ga', ['v', 'int', 5], [N('int')]],
         ['nt', ['v', 'int', 5]], ['nt', N('bool')], ['nt', N('EnumC')], ['sub', N('type'), [['s', 'int | nonexistent']]],
+        # forward references that become resolvable only after the decoration, to a class / an alias / a literal / a value,
+        # plain and under type[...]
+        ['s', 'C11_LATE_CLASS'], ['s', 'C11_LATE_ALIAS'], ['s', 'C11_LATE_VALUE'],
+        ['sub', N('type'), [['s', 'C11_LATE_CLASS']]], ['sub', N('type'), [['s', 'C11_LATE_ALIAS']]],
+        ['sub', N('type'), [['s', 'C11_LATE_LITERAL']]], ['sub', N('type'), [['s', 'C11_LATE_VALUE']]],
+        ['sub', N('list'), [['sub', N('type'), [['s', 'C11_LATE_ALIAS']]]]],
         ['sub', N('GenericUser'), [['v', 'dict', []]]], ['sub', N('Union'), [['alias', N('Any')], N('int')]],
         ['ga', N('Union'), [N('int')]], ['ga', N('Annotated'), [N('int'), ['v', 'int', 0]]], ['ga', N('Tuple'), [N('int')]],
         ['t', [['s', '\x00']]], ['t', [N('int'), ['s', 'list[']]], N('method'), N('ProtoUser'), N('CUnhash'),
